@@ -305,3 +305,67 @@ def probe_assets(spec):
             r['error'] = repr(e)[:300]
         o['assets'].append(r)
     return o
+
+
+# ------------------------------------------------------------------ C19: time grid and interval data
+def _inst(t):
+    return int(pd.Timestamp(t).value // 10 ** 9)
+
+
+def probe_grid(spec):
+    o = {'status': 'ok'}
+    g = spec['grid']
+    try:
+        tg = mk_grid(g)
+    except Exception as e:
+        return {'status': 'setup_error', 'error': repr(e)[:200]}
+    o['T'] = int(tg.T)
+    o['tp'] = [_inst(t) for t in tg.timepoints]
+    o['start'] = _inst(tg.start)
+    o['end'] = _inst(tg.end)
+    o['dt'] = [float(v) for v in tg.dt]
+    o['Dt'] = [float(v) for v in tg.Dt]
+    o['I'] = [int(i) for i in tg.I]
+    o['windows'] = []
+    for w in spec.get('windows', []):
+        r = {}
+        try:
+            tg.set_restricted_grid(ts(w.get('start')), ts(w.get('end')), w.get('freq'))
+            rg = tg.restricted
+            r['status'] = 'ok'
+            r['I'] = [int(i) for i in rg.I]
+            r['tp'] = [_inst(t) for t in rg.timepoints]
+            r['dt'] = [float(v) for v in rg.dt]
+            r['Dt'] = [float(v) for v in rg.Dt]
+            if hasattr(rg, 'I_minor_in_major'):
+                r['minor'] = [[int(i) for i in grp] for grp in rg.I_minor_in_major]
+        except Exception as e:
+            r['status'] = 'error'
+            r['error'] = repr(e)[:200]
+        o['windows'].append(r)
+    o['ivals'] = []
+    for p in spec.get('ivals', []):
+        r = {}
+        try:
+            d = mk_param(p)
+            keep = {k: list(v) for k, v in d.items()}
+            v = tg.values_to_grid(d)
+            r['status'] = 'ok'
+            r['values'] = [fnum(e) for e in v]
+            r['input_unchanged'] = all(list(d[k]) == keep[k] for k in keep) and set(d) == set(keep)
+        except ValueError as e:
+            r['status'] = 'ValueError'
+            r['error'] = str(e)[:100]
+        except Exception as e:
+            r['status'] = 'error'
+            r['error'] = repr(e)[:200]
+        o['ivals'].append(r)
+    # already gridded price arrays pass through unchanged
+    try:
+        arr = {'a': np.arange(tg.T) * 0.375 - 1.0, 'b': np.cos(np.arange(tg.T))}
+        pg = tg.prices_to_grid(arr)
+        o['prices_pass'] = bool(all(np.array_equal(np.asarray(pg[k].values, float), arr[k]) for k in arr) and len(pg) == tg.T)
+    except Exception as e:
+        o['prices_pass'] = False
+        o['prices_error'] = repr(e)[:200]
+    return o
